@@ -5,3 +5,5 @@ cd "$(dirname "$(readlink -f "$0")")/harness"
 export CARGO_NET_OFFLINE=true
 [ -f Cargo.lock ] || cp /repo/Cargo.lock .
 cargo build --release --bin vcheck
+# second feature set for C14 (no greedy_lookup_preload / preload_history / parallel_vrf)
+cargo build --release --no-default-features --features cfg_min --target-dir target-min --bin vcheck
